@@ -164,6 +164,21 @@ func c11Schedules(t *testing.T, st *Stats) {
 			}
 		}
 	}
+	{
+		what := c11RefreshRace(t, Seed())
+		st.Count("scheduled_races", 1)
+		if strings.HasPrefix(what, "setup:") {
+			st.Count("scheduled_race_setup_failed", 1)
+		} else if what != "" {
+			p := ReplayPath(fmt.Sprintf("C11-refresh-race-%d.json", Seed()))
+			b, _ := json.MarshalIndent(map[string]interface{}{"property": "C11", "sig": "bound-refresh-race", "seed": Seed(), "what": what,
+				"schedule": []string{"limits: 2 messages", "publish m1 -> sent", "Acknowledge(m1) outside the stream", "refresher: takes its list of pending ids {m1}, its query is held",
+					"publish m2, m3, m4", "sender: fetches run to completion (m2 is booked and sent)", "refresher: query answered, applies the answer", "sender: free-running"}}, "", " ")
+			os.WriteFile(p, b, 0o644)
+			st.Violate(Violation{What: "[bound-refresh-race] a fetch that books and sends a message while the refresh goroutine is between its list of pending ids and the database's answer: afterwards " + what, Replay: p, FoundInput: true, Sig: "bound-refresh-race"})
+			return
+		}
+	}
 	for _, viaDelay := range []bool{true, false} {
 		what := c11NackRedeliveryRace(t, Seed(), viaDelay)
 		st.Count("scheduled_races", 1)
@@ -177,4 +192,104 @@ func c11Schedules(t *testing.T, st *Stats) {
 			return
 		}
 	}
+}
+
+// ---- C11, safety half under a second schedule: the refresh goroutine (which rebuilds the pending
+// map after acknowledgements made outside the stream) reads the database *between* taking its list of
+// pending ids and applying the answer; what the sender books in between is not the refresher's
+// business.
+//
+//	refresher: ids := {m1} | query (held)                         | apply: m1 is gone
+//	sender:                   fetch -> books and sends m2        |                     fetch -> ...
+func c11RefreshRace(t *testing.T, seed int64) (what string) {
+	synctest.Test(t, func(t *testing.T) {
+		w := NewWorld(t, seed)
+		defer w.Close()
+		cfg := &SubCfg{Topic: "t", TTL: 24 * 3600 * Sec, MTTL: 3600 * Sec}
+		w.Exec(Op{K: "create_topic", Topic: "t"})
+		w.Exec(Op{K: "create_sub", Sub: "s", Cfg: cfg})
+		w.Dump()
+		var subID uuid.UUID
+		for _, row := range w.lastSubs {
+			subID = row.ID
+		}
+		w.Ctl.mu.Lock()
+		w.Ctl.tick = 0
+		w.Ctl.mu.Unlock()
+		conn := &scriptConn{reqs: make(chan *actions.MessageStreamRequest), closed: make(chan struct{}), out: map[uuid.UUID]int{},
+			limit: actions.FlowControl{MaxMessages: 2, MaxBytes: 100000}, ctl: w.Ctl}
+		ctx, cancel := context.WithCancel(WithLabel(context.Background(), "stream"))
+		defer cancel()
+		ms := &actions.MessageStreamer{Client: w.Client, SubscriptionID: &subID, SubscriptionName: SubName("s"), AutomaticNack: true}
+		fin := make(chan error, 1)
+		go func() { fin <- ms.Go(ctx, conn) }()
+		synctest.Wait()
+		conn.reqs <- &actions.MessageStreamRequest{FlowControl: &actions.FlowControl{MaxMessages: 2, MaxBytes: 100000}}
+		synctest.Wait()
+		pub := func(n int) {
+			w2 := *w
+			w2.execInner(Op{K: "publish", Topic: "t", Msgs: []MsgSpec{{N: n}}}, &Result{T: w.Now()})
+			synctest.Wait()
+		}
+		pub(0)
+		conn.mu.Lock()
+		if len(conn.order) != 1 {
+			conn.mu.Unlock()
+			what = "setup: the first message was not sent"
+			return
+		}
+		m1 := conn.order[0]
+		conn.mu.Unlock()
+		// from here on the stream's transactions stop at their boundaries and the refresher's query is held
+		w.Ctl.GatePlain("stream", "FROM `deliveries` WHERE (`deliveries`.`id` IN (")
+		w.Ctl.GateMulti("stream", true)
+		// the client acknowledges m1 with a plain Acknowledge call, not on the stream
+		conn.settle([]uuid.UUID{m1})
+		w2 := *w
+		w2.execInner(Op{K: "ack", Refs: []Ref{{N: 0, Sub: "s"}}}, &Result{T: w.Now()})
+		synctest.Wait()
+		pub(1)
+		pub(2)
+		pub(3)
+		// the sender's transactions run to completion; the refresher stays at its query
+		for i := 0; i < 60; i++ {
+			moved := w.Ctl.ReleaseAt("stream", "pre-begin")
+			synctest.Wait()
+			if w.Ctl.ReleaseAt("stream", "post-commit") {
+				moved = true
+				synctest.Wait()
+			}
+			if !moved {
+				break
+			}
+		}
+		if w.Ctl.ParkedAt("stream", "plain-query") == 0 {
+			what = "setup: the refresher did not run its query after the Acknowledge outside the stream"
+			// (not a verdict: the schedule could not be built)
+		}
+		conn.mu.Lock()
+		sentBefore := len(conn.order)
+		conn.mu.Unlock()
+		// now the refresher gets its answer and applies it; everything runs freely
+		w.Ctl.GateMulti("stream", false)
+		for w.Ctl.ReleaseAt("stream", "plain-query") || w.Ctl.ReleaseAt("stream", "post-commit") || w.Ctl.ReleaseAt("stream", "pre-begin") {
+			synctest.Wait()
+		}
+		synctest.Wait()
+		if strings.HasPrefix(what, "setup:") {
+			cancel()
+			synctest.Wait()
+			return
+		}
+		if conn.bad != "" {
+			what = conn.bad
+		}
+		n, _ := conn.usage()
+		if what == "" && n > 2 {
+			what = fmt.Sprintf("%d messages outstanding, max outstanding messages is 2 (%d messages had been sent when the refresher's query was answered)", n, sentBefore)
+		}
+		cancel()
+		synctest.Wait()
+	})
+	return
 }
